@@ -36,14 +36,21 @@ impl<R: RealNumberInternalTrait> ValueReference<Vec<Value<R>>> {
     #[verifier::external_body]
     pub fn new_mutable(t: Vec<Value<R>>) -> (r: Self) ensures vec_contents(r) == t@, is_mutable_vec(r) { unimplemented!() }
 }
-/// values.rs Number::from_ratio: its contract is proved in unit values_num; here the value it yields is an uninterpreted
-/// FUNCTION of its arguments (ASSUMED: from_ratio is deterministic)
-pub uninterp spec fn ratio_value<R: RealNumberInternalTrait>(num: int, den: int) -> Number<R>;
+/// (the numeric vocabulary of unit values_num)
+pub open spec fn is_exact<R: RealNumberInternalTrait>(n: Number<R>) -> bool { !(n is Real) }
+pub open spec fn numer<R: RealNumberInternalTrait>(n: Number<R>) -> int {
+    match n { Number::Integer(a) => a as int, Number::Rational(a, _) => a as int, Number::Real(_) => 0 }
+}
+pub open spec fn denom<R: RealNumberInternalTrait>(n: Number<R>) -> int {
+    match n { Number::Integer(_) => 1, Number::Rational(_, b) => b as int, Number::Real(_) => 1 }
+}
 impl<R: RealNumberInternalTrait> Number<R> {
+    /// values.rs Number::from_ratio -- CONTRACT PROVED IN UNIT values_num (restated: the clauses this unit needs)
     #[verifier::external_body]
     pub fn from_ratio(num: i64, den: i64) -> (r: Self)
         requires den != 0, num > i64::MIN, den > i64::MIN,
-        ensures r == ratio_value::<R>(num as int, den as int),
+        ensures is_exact(r) ==> denom(r) > 0 && numer(r) * den == num * denom(r),
+            -0x8000_0000 < num < 0x8000_0000 && -0x8000_0000 < den < 0x8000_0000 ==> is_exact(r),
     { unimplemented!() }
 }
 /// error!(SyntaxError::ExpectSomething("real number".to_string(), number_literal.clone()))  (X6)
@@ -95,7 +102,9 @@ pub open spec fn prim_lit<R: RealNumberInternalTrait>(p: Primitive, v: Value<R>)
         Primitive::String(s) => v matches Value::String(t) && t@ == s@,
         Primitive::Boolean(b) => v == Value::<R>::Boolean(b),
         Primitive::Integer(a) => v == Value::<R>::Number(Number::Integer(a)),
-        Primitive::Rational(a, b) => v == Value::<R>::Number(ratio_value::<R>(a as int, b as int)),
+        // a ratio literal a/b denotes the exact number a/b (in whatever terms), or -- only when b does not fit -- an inexact one
+        Primitive::Rational(a, b) => v matches Value::Number(n) && (is_exact(n) ==> denom(n) > 0 && numer(n) * b == a * denom(n))
+            && (a > -0x8000_0000 && b < 0x8000_0000 ==> is_exact(n)),
         // a decimal: an inexact number (which one is f64's FromStr + the conversion to R: not modelled)
         Primitive::Real(_) => v matches Value::Number(Number::Real(_)),
     }
@@ -195,7 +204,7 @@ TYPE_ITEMS = list(_cmp.TYPE_ITEMS) + [
     {"kind": "type", "file": D, "name": "Datum"},
 ]
 
-_CLOSURE = ("|i: &Datum| -> (o: Result<Value<R>>) requires wf_datum(*i) ensures lit_post(*i, o) { Self::read_literal(i, env) }")
+_CLOSURE = (r"|\2: &Datum| -> (o: Result<Value<R>>) requires wf_datum(*\2) ensures lit_post(*\2, o) { \\B }")
 
 UNIT = {
     "props": ["C06"],
@@ -205,7 +214,7 @@ UNIT = {
     "trusted": dict(_cmp._tail.UNIT["trusted"], **{
         "new_immutable": "ValueReference::new_immutable: a literal (immutable) vector object holding the elements (units valref / valref_mut)",
         "new_mutable": "ValueReference::new_mutable (declared only)",
-        "from_ratio": "ASSUMED: Number::from_ratio is a function of its arguments (its own contract: unit values_num)",
+        "from_ratio": "CONTRACT PROVED IN UNIT values_num (restated)",
         "literal_error": "X6",
         "pair_map_ok_ref": "ASSUMED (pair.rs GenericPair::map_ok_ref, generic recursion: not under contract): maps the non-pair elements, keeps the pair structure",
         "datum_map_collect": "ASSUMED (std): slice.iter().map(f).collect::<Result<_>>() applies f in order and stops at the first Err",
@@ -224,9 +233,10 @@ UNIT = {
              "read_literal": {"props": ["C06", "C07"],
                  "attrs": "#[verifier::exec_allows_no_decreases_clause]",
                  "sig_rewrites": [("S1", r"-> Result<Value<R>>$", "-> (r: Result<Value<R>>)")],
+                 # rule C1b: the closures' parameter names AND bodies are the real text; the contract is spliced onto their heads
                  "rewrites": [
-                     ("X3s", r"(\w+)\.map_ok_ref\(&mut \|(\w+)\| Self::read_literal\(\2, env\)\)", r"pair_map_ok_ref(&**\1, " + _CLOSURE + ")", 1),
-                     ("X3s", r"(\w+)\s*\.iter\(\)\s*\.map\(\|(\w+)\| Self::read_literal\(\2, env\)\)\s*\.collect::<Result<_>>\(\)", r"datum_map_collect(\1, " + _CLOSURE + ")", 1, "S"),
+                     ("C1b", r"(\w+)\s*\.iter\(\)\s*\.map\(\s*\|(\w+)\| ", r"datum_map_collect(\1, " + _CLOSURE + ")", 1, r"\s*\.collect::<Result<_>>\(\)"),
+                     ("C1b", r"(\w+)\.map_ok_ref\(\s*&mut \|(\w+)\| ", r"pair_map_ok_ref(&**\1, " + _CLOSURE + ")", 1),
                  ],
                  "contract": """        requires wf_datum(*datum),
         ensures lit_post(*datum, r),"""},
